@@ -260,7 +260,7 @@ class CallMixin:
             yield V(NONE, None), st
         elif name == "insert":
             n = self.llen(st, lst)
-            ek = self.resolve_elem(lst, args[1])
+            ek = self.resolve_elem(lst, args[1], st)
             arr = self.larr(st, lst)
             it = ops.to_int_term(args[0])
             i = z3.If(it < 0, z3.If(it + n < 0, 0, it + n), z3.If(it > n, n, it))
@@ -296,7 +296,7 @@ class CallMixin:
             # empty source of unknown kind: nothing to add (n items == 0)
             view.consume(st)
             return
-        ek = self.resolve_elem(lst, sample)
+        ek = self.resolve_elem(lst, sample, st)
         arr = self.larr(st, lst)
         sterm = self.to_term(sample, ek)
         narr = z3.Lambda([k], z3.If(k < n, arr[k], z3.substitute(sterm, (k, k - n))))
